@@ -3,6 +3,7 @@ package main
 // K3 (SSA, interprocedural): the auth middleware lets a request through only when both credentials matched.
 
 import (
+	"go/types"
 	"fmt"
 	"go/token"
 	"sort"
@@ -80,7 +81,12 @@ func (a *authCtx) describe(v ssa.Value, bind map[ssa.Value]ssa.Value, d int) str
 		if sc := x.Common().StaticCallee(); sc != nil {
 			switch sc.String() {
 			case "strings.SplitN", "strings.Split":
-				if sep, ok := constStr(x.Common().Args[1]); ok {
+				sepV := x.Common().Args[1]
+				if b, ok := bind[sepV]; ok {
+					// the separator is a parameter of a splitting helper: what the caller passes
+					sepV = b
+				}
+				if sep, ok := constStr(sepV); ok {
 					switch sep {
 					case ":":
 						return "pair"
@@ -226,29 +232,48 @@ func (a *authCtx) implied(v ssa.Value, truth bool, bind map[ssa.Value]ssa.Value,
 // be a method of that object); returns the parameter's index or -1.
 func (a *authCtx) credField(fa *ssa.FieldAddr) int {
 	want := fieldKey(fa.X.Type(), fa.Field)
-	for _, b := range a.ctor.Blocks {
-		for _, ins := range b.Instrs {
-			st, ok := ins.(*ssa.Store)
-			if !ok {
-				continue
-			}
-			dst, ok := st.Addr.(*ssa.FieldAddr)
-			if !ok || fieldKey(dst.X.Type(), dst.Field) != want {
-				continue
-			}
-			if _, isAlloc := dst.X.(*ssa.Alloc); !isAlloc {
-				continue
-			}
-			if p, ok := st.Val.(*ssa.Parameter); ok {
-				for i, q := range a.ctor.Params {
-					if q == p {
-						return i
+	found := -1
+	var scan func(fn *ssa.Function)
+	scan = func(fn *ssa.Function) {
+		for _, b := range fn.Blocks {
+			for _, ins := range b.Instrs {
+				st, ok := ins.(*ssa.Store)
+				if !ok {
+					continue
+				}
+				dst, ok := st.Addr.(*ssa.FieldAddr)
+				if !ok || fieldKey(dst.X.Type(), dst.Field) != want {
+					continue
+				}
+				if _, isAlloc := dst.X.(*ssa.Alloc); !isAlloc {
+					continue
+				}
+				// the credential itself, or the closure's capture of it
+				v := st.Val
+				if p, ok := v.(*ssa.Parameter); !ok || p.Parent() != a.ctor {
+					v = rootCell(st.Val)
+				}
+				if al, ok := v.(*ssa.Alloc); ok && al.Parent() == a.ctor {
+					if p, spilled := isSpilledParam(al); spilled {
+						v = p
+					}
+				}
+				if p, ok := v.(*ssa.Parameter); ok && p.Parent() == a.ctor {
+					for i, q := range a.ctor.Params {
+						if q == p {
+							found = i
+						}
 					}
 				}
 			}
 		}
+		// the object may be built by the function the constructor returns (`func(next) http.Handler { return &handler{…} }`)
+		for _, af := range fn.AnonFuncs {
+			scan(af)
+		}
 	}
-	return -1
+	scan(a.ctor)
+	return found
 }
 
 // impliedByCallConst: facts that hold when result #resIdx of the helper equals the constant want: the helper returns constants
@@ -434,6 +459,36 @@ var ruleK3 = &Rule{
 					}
 				}
 			}
+		}
+		if handler == nil {
+			// the middleware may wrap `next` in a handler object: a struct the constructor (or the function it returns) builds, whose
+			// ServeHTTP is the handler
+			var scan func(fn *ssa.Function)
+			scan = func(fn *ssa.Function) {
+				for _, b := range fn.Blocks {
+					for _, ins := range b.Instrs {
+						al, ok := ins.(*ssa.Alloc)
+						if !ok {
+							continue
+						}
+						nt := namedOf(derefType(al.Type()))
+						if nt == nil || nt.Obj().Pkg() == nil || !strings.HasPrefix(nt.Obj().Pkg().Path(), modPath) {
+							continue
+						}
+						for _, recv := range []types.Type{types.NewPointer(nt), nt} {
+							if sel := c.SSA().MethodSets.MethodSet(recv).Lookup(nt.Obj().Pkg(), "ServeHTTP"); sel != nil && handler == nil {
+								if m := c.SSA().MethodValue(sel); m != nil && len(m.Blocks) > 0 {
+									handler = m
+								}
+							}
+						}
+					}
+				}
+				for _, af := range fn.AnonFuncs {
+					scan(af)
+				}
+			}
+			scan(ctor)
 		}
 		if handler == nil || len(ctor.Params) != 2 {
 			return []Obl{{Key: name + " handler literal", Pos: c.pos(ctor.Pos()), Status: Undecided, Msg: "handler closure or the two credential parameters not recognised"}}
